@@ -64,7 +64,7 @@ def srStep (pref : Pref) (kn : List Nat) (st : SearchSt) (eqID : Nat) :
   let i := st.i
   match pref with
   | .stored p =>
-    if i > l then .error (.panic "slice bounds out of range: key[i>>3:]") else
+    if i / 2 > l / 2 then .error (.panic "slice bounds out of range: key[i>>3:]") else
     match cmpUpto (kn.drop (i - i % 2)) p with
     | .eq => .ok (.inr (i - i % 2 + p.length))
     | .lt => .ok (.inl { st with rID := some eqID, eqID := none })
@@ -132,7 +132,7 @@ theorem step_rel (pref : Pref) (kn : List Nat) (st : SearchSt) (eqID : Nat) :
     split <;> simp
   | stored p =>
     simp only [idStep, srStep]
-    by_cases h1 : st.i > kn.length
+    by_cases h1 : st.i / 2 > kn.length / 2
     · simp [h1]
     · simp only [h1, if_false]
       cases hc : cmpUpto (List.drop (st.i - st.i % 2) kn) p with
@@ -253,7 +253,8 @@ def idEpi (v : View) (key : Bytes) (r : Reached) : Except Err (Option Nat) :=
       match r.lp with
       | none => .ok none
       | some lp =>
-        if r.i > (nibs key).length then .error (.panic "slice bounds out of range: key[i>>3:]")
+        if r.i / 2 > (nibs key).length / 2 then
+          .error (.panic "slice bounds out of range: key[i>>3:]")
         else .ok (if lp == key.drop (r.i / 2) then some r.id else none)
   else .ok (some r.id)
 
@@ -383,7 +384,7 @@ theorem epi_full (v : View) (key : Bytes) (r : Reached) (s : SearchSt) (a : Opti
         simp [cmpBytes_nil_right _ htail]
       | some lp =>
         rw [hlp] at h
-        have hgt : ¬ r.i > (nibs key).length := by omega
+        have hgt : ¬ r.i / 2 > (nibs key).length / 2 := by omega
         simp only [hgt, if_false] at h
         cases h
         simp only [Option.getD_some]
@@ -427,17 +428,28 @@ theorem epi_hit (v : View) (key : Bytes) (r : Reached) (s : SearchSt) (id : Nat)
       | none => rw [hlp] at hh; simp at hh
       | some lp =>
         rw [hlp] at hh
-        by_cases hgt : r.i > (nibs key).length
+        by_cases hgt : r.i / 2 > (nibs key).length / 2
         · simp [hgt] at hh
         · simp only [hgt, if_false] at hh
-          have hlt : r.i < (nibs key).length := by omega
-          have htail := drop_half_ne_nil key r.i hlt
-          have hlpe : lp = List.drop (r.i / 2) key := by
-            by_cases hc : lp = List.drop (r.i / 2) key
-            · exact hc
-            · simp [hc] at hh
-          refine epi_full v key r s _ h1 h2 h3 (by omega) ?_ h
-          rw [hlp, hlpe]; intro hcontra; exact htail (Option.some.inj hcontra)
+          by_cases hov : r.i > (nibs key).length
+          · -- `i = l + 1`: `GetID` compared with the empty tail; `searchID` skips the comparison
+            have hid := hh
+            have hrid : some r.id = some id := by
+              by_cases hc : lp = List.drop (r.i / 2) key
+              · simpa [hc] using hid
+              · simp [hc] at hid
+            unfold srEpi
+            rw [h1]; simp only [h2]
+            rw [if_neg (by omega)]
+            rw [← hrid]; exact h1
+          · have hlt : r.i < (nibs key).length := by omega
+            have htail := drop_half_ne_nil key r.i hlt
+            have hlpe : lp = List.drop (r.i / 2) key := by
+              by_cases hc : lp = List.drop (r.i / 2) key
+              · exact hc
+              · simp [hc] at hh
+            refine epi_full v key r s _ h1 h2 h3 (by omega) ?_ h
+            rw [hlp, hlpe]; intro hcontra; exact htail (Option.some.inj hcontra)
 
 /-- the leaf prefix left by the loop of `GetID` is `none` (the `i == l` shortcut) or the prefix
     of the leaf node it stopped at -/
@@ -556,11 +568,9 @@ theorem searchID_eq_getID_of (v : View) (key : Bytes) (a : Option Nat)
     `bytes.Compare(tail, leafPrefix)`; a present-but-empty leaf prefix separates the two.
   * `cex2`: `searchID` skips the leaf-prefix comparison when `i > l` (keeps the hit), `GetID`
     then answers -1 (`i != l` and `!qr.hasLeafPrefix`).  `i > l` needs an 8-bit word read at a
-    position that is not byte aligned.  (Model caveat on such states only: at an unaligned
-    257-bit node Go's `getLabelIdxOfKey` reads the whole byte `key[i>>3]` — label 172 for key
-    `0xab` — where the model reads two half-bytes from `i` — label 177; and for `i = l + 1`
-    the model's `key[i>>3:]` panics where Go's slice is just empty.  Neither state is reachable
-    in a well-formed trie: `Agree.noOverrun_of_WF`.) -/
+    position that is not byte aligned (there the model, like Go's `getLabelIdxOfKey`, reads the
+    whole byte `key[i>>3]` — label 172 for key `0xab` at position 1).  Neither state is
+    reachable in a well-formed trie: `Agree.noOverrun_of_WF`. -/
 
 /-- one leaf that stores an empty leaf prefix -/
 def cex1 : View where
@@ -581,7 +591,7 @@ def cex2 : View where
   isEmpty := false
   nodeCnt := 2
   node := fun id =>
-    if id = 0 then .ok (.inner { big := true, labels := [177], firstChild := 1, pref := .step 1 })
+    if id = 0 then .ok (.inner { big := true, labels := [172], firstChild := 1, pref := .step 1 })
     else if id = 1 then .ok (.leaf 0 none)
     else .error (.panic "node id out of range")
   leafPrefixesOn := true
@@ -699,7 +709,8 @@ theorem getIDLoop_pos_of_WF (keys : List Bytes) (keep : List Bool) (t : Trie1)
                   omega
                 simp only [hid] at h
                 have hlne : rr.labels[k] ≠ 0 := by
-                  rw [hkl, labelIdxOfKey_eq_labelAt, Ne, labelAt_eq_zero_iff]; omega
+                  rw [hkl, labelIdxOfKey_eq_labelAt _ _ _ (fun hb => (hbig hb).1), Ne,
+                    labelAt_eq_zero_iff]; omega
                 have hfb : i + wordSize rr.big = c.fb := by
                   rw [hcfb]; unfold labelLen wordSize; rw [if_neg hlne]
                 rw [hfb] at h
